@@ -163,4 +163,198 @@ theorem fixResonance_keeps (m : Mol) (L : Labels) (ro eo : List Nat) (o : Mol) (
             have hv := recalc_heavyView _ _ _ hr
             exact (k1.trans k2).trans ⟨skeleton_of_heavyView hv, netCharge_of_heavyView hv⟩
 
+/-! ## the delocalisation paths alternate -/
+
+/-- `(x, y, b)` at index `i` of a path rewrites an existing bond `x–y` of order `o` to `b = o + 1` (even `i`, `o ≤ 2`) or
+    `b = o − 1` (odd `i`, `2 ≤ o ≤ 4`) -/
+def StepOk (m : Mol) (i : Nat) (t : Nat × Nat × Nat) : Prop :=
+  ∃ row kb, m.adj.lookup t.1 = some row ∧ kb ∈ row ∧ kb.1 = t.2.1 ∧
+    (if i % 2 = 0 then kb.2.order ≤ 2 ∧ t.2.2 = kb.2.order + 1 else 2 ≤ kb.2.order ∧ kb.2.order ≤ 4 ∧ t.2.2 + 1 = kb.2.order)
+
+def PathOk (m : Mol) (p : RPath) : Prop := ∀ i t, p[i]? = some t → StepOk m i t
+
+/-- stack entries carry legal steps for their depth; depths are non-increasing from the top and bounded -/
+def StackOk (m : Mol) : List (Nat × Nat × Nat × Nat) → Nat → Prop
+  | [], _ => True
+  | (l, c, d, o) :: rest, bound => d ≤ bound ∧ StepOk m d (l, c, o) ∧ StackOk m rest d
+
+theorem StackOk.mono (m : Mol) : ∀ (s : List (Nat × Nat × Nat × Nat)) (b b' : Nat), b ≤ b' → StackOk m s b → StackOk m s b' := by
+  intro s
+  cases s with
+  | nil => intro _ _ _ _; trivial
+  | cons e rest =>
+    obtain ⟨l, c, d, o⟩ := e
+    intro b b' hb h
+    exact ⟨Nat.le_trans h.1 hb, h.2.1, h.2.2⟩
+
+theorem StackOk.append (m : Mol) (d : Nat) : ∀ (ch : List (Nat × Nat × Nat × Nat)) (rest : List (Nat × Nat × Nat × Nat)),
+    (∀ e ∈ ch, e.2.2.1 = d ∧ StepOk m d (e.1, e.2.1, e.2.2.2)) → StackOk m rest d → StackOk m (ch ++ rest) d := by
+  intro ch
+  induction ch with
+  | nil => intro rest _ h; exact h
+  | cons e tl ih =>
+    intro rest hch h
+    obtain ⟨l, c, d', o⟩ := e
+    have he := hch (l, c, d', o) List.mem_cons_self
+    simp only at he
+    obtain ⟨rfl, hs⟩ := he
+    exact ⟨Nat.le_refl _, hs, ih rest (fun e he => hch e (List.mem_cons_of_mem _ he)) h⟩
+
+theorem PathOk.take_append (m : Mol) (p : RPath) (d : Nat) (t : Nat × Nat × Nat) (hp : PathOk m p) (hd : d ≤ p.length)
+    (ht : StepOk m d t) : PathOk m (p.take d ++ [t]) := by
+  intro i x hx
+  by_cases hi : i < d
+  · have : (p.take d ++ [t])[i]? = p[i]? := by
+      rw [List.getElem?_append_left (by simp; omega), List.getElem?_take]; simp [hi]
+    rw [this] at hx
+    exact hp i x hx
+  · have hlen : (p.take d).length = d := by simp; omega
+    by_cases hid : i = d
+    · subst hid
+      rw [List.getElem?_append_right (by omega), hlen] at hx
+      simp at hx
+      subst hx
+      exact ht
+    · rw [List.getElem?_append_right (by omega), hlen] at hx
+      have : i - d ≥ 1 := by omega
+      cases hk : i - d with
+      | zero => omega
+      | succ k => rw [hk] at hx; simp at hx
+
+
+theorem children_ok (m : Mol) (cur depth : Nat) (row : List (Nat × Bond)) (seen constrains : List Nat)
+    (hrow : m.adj.lookup cur = some row) :
+    ∀ e ∈ (row.filterMap fun kb =>
+            if !seen.contains kb.1 && constrains.contains kb.1 then
+              if depth % 2 == 1 then (if 2 ≤ kb.2.order && kb.2.order ≤ 4 then some (cur, kb.1, depth, kb.2.order - 1) else none)
+              else (if kb.2.order ≤ 2 then some (cur, kb.1, depth, kb.2.order + 1) else none)
+            else none).reverse, e.2.2.1 = depth ∧ StepOk m depth (e.1, e.2.1, e.2.2.2) := by
+  intro e he
+  rw [List.mem_reverse, List.mem_filterMap] at he
+  obtain ⟨kb, hkb, hf⟩ := he
+  split at hf
+  · split at hf
+    · rename_i hodd
+      split at hf
+      · rename_i hr
+        simp only [Option.some.injEq] at hf
+        subst hf
+        simp only [Bool.and_eq_true, decide_eq_true_eq] at hr
+        refine ⟨rfl, row, kb, hrow, hkb, rfl, ?_⟩
+        have : depth % 2 ≠ 0 := by simp at hodd; omega
+        simp only [this, if_false]
+        omega
+      · simp at hf
+    · rename_i hodd
+      split at hf
+      · rename_i hr
+        simp only [Option.some.injEq] at hf
+        subst hf
+        refine ⟨rfl, row, kb, hrow, hkb, rfl, ?_⟩
+        have : depth % 2 = 0 := by simp at hodd; omega
+        simp only [this, if_true]
+        exact ⟨hr, by first | rfl | trivial⟩
+      · simp at hf
+  · simp at hf
+
+theorem findPath_alternates (m : Mol) (finish constrains : List Nat) (oddOnly : Bool) (accept : RPath → Option Bool) :
+    ∀ (fuel : Nat) (stack : List (Nat × Nat × Nat × Nat)) (path : RPath) (seen : List Nat) (p : RPath),
+      PathOk m path → StackOk m stack path.length →
+      findPath m finish constrains oddOnly accept fuel stack path seen = some (some p) → PathOk m p := by
+  intro fuel
+  induction fuel with
+  | zero => intro stack path seen p _ _ h; simp [findPath] at h
+  | succ k ih =>
+    intro stack path seen p hp hs h
+    cases stack with
+    | nil => simp [findPath] at h
+    | cons e rest =>
+      obtain ⟨last, cur, depth, order⟩ := e
+      obtain ⟨hd, hstep, hrest⟩ := hs
+      unfold findPath at h
+      simp only at h
+      have hpath : (if path.length > depth then path.take depth else path) = path.take depth := by
+        split
+        · rfl
+        · rw [List.take_of_length_le (by omega)]
+      simp only [hpath] at h
+      have hp' := PathOk.take_append m path depth (last, cur, order) hp hd hstep
+      have hlen : (path.take depth ++ [(last, cur, order)]).length = depth + 1 := by
+        simp only [List.length_append, List.length_take, List.length_cons, List.length_nil]; omega
+      have hrest' : StackOk m rest (path.take depth ++ [(last, cur, order)]).length := by
+        rw [hlen]; exact StackOk.mono m rest depth (depth + 1) (by omega) hrest
+      have hgo : ∀ (seen' : List Nat),
+          (if (finish.contains cur && oddOnly && (path.take depth ++ [(last, cur, order)]).length % 2 == 0) = true then
+            findPath m finish constrains oddOnly accept k rest (path.take depth ++ [(last, cur, order)]) seen'
+          else
+            match List.lookup cur m.adj with
+            | none => none
+            | some row =>
+              findPath m finish constrains oddOnly accept k
+                ((row.filterMap fun kb =>
+                    if (!(setAdd seen' cur).contains kb.1 && constrains.contains kb.1) = true then
+                      if ((depth + 1) % 2 == 1) = true then
+                        (if (decide (2 ≤ kb.2.order) && decide (kb.2.order ≤ 4)) = true then some (cur, kb.1, depth + 1, kb.2.order - 1) else none)
+                      else (if kb.2.order ≤ 2 then some (cur, kb.1, depth + 1, kb.2.order + 1) else none)
+                    else none).reverse ++ rest)
+                (path.take depth ++ [(last, cur, order)]) (setAdd seen' cur)) = some (some p) → PathOk m p := by
+        intro seen' hh
+        split at hh
+        · exact ih _ _ _ _ hp' hrest' hh
+        · split at hh
+          · simp at hh
+          · rename_i row hrow
+            refine ih _ _ _ _ hp' ?_ hh
+            rw [hlen]
+            exact StackOk.append m (depth + 1) _ rest (children_ok m cur (depth + 1) row (setAdd seen' cur) constrains hrow)
+              (StackOk.mono m rest depth (depth + 1) (by omega) hrest)
+      have key : ∀ (c : Bool) (path' : RPath) (GO : Option (Option RPath)), PathOk m path' →
+          (GO = some (some p) → PathOk m p) →
+          (if c = true then
+            match accept path' with
+            | none => none
+            | some true => some (some path')
+            | some false => GO
+          else GO) = some (some p) → PathOk m p := by
+        intro c path' GO hpp hG hh
+        split at hh
+        · split at hh
+          · simp at hh
+          · simp only [Option.some.injEq] at hh
+            rw [← hh]; exact hpp
+          · exact hG hh
+        · exact hG hh
+      exact key _ _ _ hp' (hgo _) h
+
+
+theorem startStack_ok (m : Mol) (start : Nat) (constrains : List Nat) (st0 : List (Nat × Nat × Nat × Nat))
+    (h : startStack m start constrains = some st0) : StackOk m st0 0 := by
+  unfold startStack at h
+  obtain ⟨row, hrow, rfl⟩ := Option.map_eq_some_iff.mp h
+  have := StackOk.append m 0
+    (row.filterMap fun kb => if constrains.contains kb.1 && kb.2.order < 3 then some (start, kb.1, 0, kb.2.order + 1) else none).reverse []
+    (by
+      intro e he
+      rw [List.mem_reverse, List.mem_filterMap] at he
+      obtain ⟨kb, hkb, hf⟩ := he
+      split at hf
+      · rename_i hc
+        simp only [Option.some.injEq] at hf
+        subst hf
+        simp only [Bool.and_eq_true, decide_eq_true_eq] at hc
+        refine ⟨rfl, row, kb, hrow, hkb, rfl, ?_⟩
+        simp only [Nat.zero_mod, if_true]
+        exact ⟨by omega, by first | rfl | trivial⟩
+      · simp at hf) trivial
+  simpa using this
+
+/-- **every delocalisation path the search hands to the loop body alternates**: step `i` of the path rewrites an existing bond
+    of order `o` to `o + 1` (`i` even, `o ≤ 2`) or to `o − 1` (`i` odd, `2 ≤ o ≤ 4`) -/
+theorem search_alternates (m : Mol) (start : Nat) (finish constrains : List Nat) (oddOnly : Bool) (accept : RPath → Option Bool)
+    (fuel : Nat) (st0 : List (Nat × Nat × Nat × Nat)) (seen : List Nat) (p : RPath)
+    (h0 : startStack m start constrains = some st0)
+    (h : findPath m finish constrains oddOnly accept fuel st0 [] seen = some (some p)) : PathOk m p :=
+  findPath_alternates m finish constrains oddOnly accept fuel st0 [] seen p (by intro i t ht; simp at ht)
+    (startStack_ok m start constrains st0 h0) h
+
 end ChythonModel.Proofs.C14
